@@ -183,6 +183,15 @@ func judge(o *vlib.Oracle, j job, wo *WorkerOut, races []raceReport) {
 			r.Sample(map[string]interface{}{"op": op, "reference": wo.Ref[i]})
 		}
 	}
+	if wo.CreateFail != "" {
+		r.Eval("directed:createfail", fmt.Sprint(j.Seed, j.Shard, "createfail"))
+		if wo.CreateFail == "ok" {
+			r.TieOK()
+		} else {
+			r.PropFail("snapshot-create-failure-wedges-node", "os.Create of one snapshot's temporary file fails (a directory has its name); later: "+wo.CreateFail,
+				map[string]interface{}{"job": j, "stacks": wo.CreateFailStacks})
+		}
+	}
 	for _, d := range wo.Diffs {
 		kind := strings.Fields(d.Note + " ?")[0]
 		r.PropFail("schedule-dependent:"+kind, fmt.Sprintf("under schedule %s op %d (%s) gave %+v, the sequential reference %+v", d.Cfg, d.Op, d.Note, d.Got, d.Ref),
@@ -413,7 +422,7 @@ func main() {
 			jobs = append(jobs, j)
 		}
 	} else {
-		jobs = []job{{Seed: r.Seed, Shard: 0, Tier: "quick", Only: "resave"}, {Seed: r.Seed, Shard: 0, Tier: "quick", Only: "chain"},
+		jobs = []job{{Seed: r.Seed, Shard: 0, Tier: "quick", Only: "resave"}, {Seed: r.Seed, Shard: 0, Tier: "quick", Only: "createfail"}, {Seed: r.Seed, Shard: 0, Tier: "quick", Only: "chain"},
 			{Seed: r.Seed, Shard: 1, Tier: "quick", Only: "chain"}, {Seed: r.Seed, Shard: 0, Tier: "quick", Only: "compr"}}
 	}
 	type result struct {
